@@ -52,6 +52,7 @@ def main():
         cut_src = [s for s in py + xs if len(s) < 200]
     pycommon.indent_skeleton(chk, o, 4 if chk.quick else 5, pycommon.CORE_OPTS, wall=120 if chk.quick else 1200)
     pycommon.indent_skeleton(chk, o, 2 if chk.quick else 3, pycommon.RICH_OPTS, wall=120 if chk.quick else 1500, label="rich")
+    pycommon.k0_texts(chk, o, seeds.literal_product(), "literal evaluation product k=0", wall=150 if chk.quick else 600, vac=("SyntaxError",))
     cut_src = [s for s in LAYOUT_ERR_SEEDS if len(s) < 120] + cut_src
     ml = pycommon.relayout_multiline([s for s in py if len(s) < 120] + seeds.sample(chk.rng, seeds.expr_product(), 150 if chk.quick else 1500))
     chk.extra["multiline_relayouts"] = len(ml)
